@@ -186,6 +186,13 @@ def taint_rule(ctx, rule_id, roots, statement, reference=None):
     return r
 
 
+def _anc20(n):
+    p_ = getattr(n, "_parent", None)
+    while p_ is not None:
+        yield p_
+        p_ = getattr(p_, "_parent", None)
+
+
 def run(ctx):
     p = ctx.p
     et = ctx.cls("clikit.ui.components.exception_trace.ExceptionTrace")
@@ -551,6 +558,73 @@ def run(ctx):
     if n13 == 0:
         r.vacuous_ok = True
         r.note("the trace renderer calls no partial path function")
+
+    # ---------------------------------------------------------------- R14
+    r = ctx.rule("C20-R14", "GUARD", "'simple mode prints the message only' at every verbosity: the simple arm of render is governed by the `simple` parameter alone - no state of the "
+                 "output (debug, verbose, ansi) is conjoined with it", reference=1)
+    rnd = et.methods.get("render")
+    ctx.require(rnd is not None and "simple" in rnd.params, "ExceptionTrace.render(io, simple) missing")
+    n14 = 0
+    for ifn in [n for n in walk_no_nested(rnd.node) if isinstance(n, ast.If) and any(isinstance(x, ast.Name) and x.id == "simple" for x in ast.walk(n.test))]:
+        neg = isinstance(ifn.test, ast.UnaryOp) and isinstance(ifn.test.op, ast.Not) and isinstance(ifn.test.operand, ast.Name) and ifn.test.operand.id == "simple"
+        arm = ifn.orelse if neg else ifn.body
+        if not any(isinstance(x, ast.Return) for st in arm for x in ast.walk(st)) and not neg:
+            continue
+        n14 += 1
+        outer = [a_ for a_ in _anc20(ifn) if isinstance(a_, (ast.If, ast.While)) ]
+        plain = (isinstance(ifn.test, ast.Name) and ifn.test.id == "simple") or neg
+        if plain and not outer:
+            r.ok("%s: the message-only arm depends on `simple` alone" % rnd.short)
+        else:
+            what = norm(ifn.test) if not plain else norm(outer[0].test)
+            r.fail(rnd, ifn.test, "simple arm under `%s`" % what[:60], "render takes the message-only arm under `%s`, not under `simple` alone: with simple=True and the other condition false the full trace is "
+                   "printed (e.g. at -vvv)" % what)
+    if n14 == 0:
+        r.fail(rnd, rnd.node, "no simple arm", "render has no arm that is taken when `simple` is true and returns before the full trace")
+
+    # ---------------------------------------------------------------- R15
+    r = ctx.rule("C20-R15", "SIBLING", "'on an output that cannot show UTF-8 the snippet uses ASCII marks': every highlighter the trace renderer builds is told what the output supports "
+                 "(supports_utf8 = io.supports_utf8()), and every snippet is cut from the frame's file content - the call sites agree", reference=4)
+    firsts = {}
+    for name_, m_ in sorted(et.methods.items()):
+        for c in q.calls(m_):
+            if isinstance(c.func, ast.Name) and c.func.id == "Highlighter":
+                kw = next((k.value for k in c.keywords if k.arg == "supports_utf8"), c.args[0] if c.args else None)
+                if kw is not None and any(isinstance(x, ast.Attribute) and x.attr == "supports_utf8" for x in ast.walk(kw)):
+                    r.ok("%s: Highlighter built with the output's UTF-8 support" % m_.short)
+                else:
+                    r.fail(m_, c, "%s without supports_utf8" % norm(c)[:40], "%s builds a Highlighter with its default (UTF-8 marks) whatever the output supports: on an ASCII / latin-1 stream the arrow and "
+                           "bar of the snippet cannot be encoded - UnicodeEncodeError escapes render before the class name and message are written" % m_.short)
+            if isinstance(c.func, ast.Attribute) and c.func.attr == "code_snippet" and c.args:
+                firsts.setdefault(norm(c.args[0]), []).append((m_, c))
+    if len(firsts) > 1:
+        ref_txt = max(firsts, key=lambda k: (k.endswith("file_content"), len(firsts[k])))
+        for txt, sites in sorted(firsts.items()):
+            if txt != ref_txt:
+                for m_, c in sites:
+                    r.fail(m_, c, "code_snippet(%s, ...)" % txt[:50], "%s cuts the snippet from `%s` while the other call site uses `%s`: when the file cannot be read the single line is shown as line 1 - "
+                           "the number, the text and the marker no longer belong together" % (m_.short, txt, ref_txt))
+    for txt, sites in sorted(firsts.items()):
+        if len(firsts) == 1 or txt == max(firsts, key=lambda k: (k.endswith("file_content"), len(firsts[k]))):
+            for m_, c in sites:
+                r.ok("%s: snippet cut from %s" % (m_.short, txt))
+
+    # ---------------------------------------------------------------- R16
+    r = ctx.rule("C20-R16", "SLICE", "'the marked line is the line of the frame': line i of what the highlighter returns is line i of the source - the source is split as it is, never "
+                 "after stripping leading / trailing newlines (a file may start with blank lines)", reference=2)
+    n16 = 0
+    for name_, m_ in sorted(hl_cls.methods.items()):
+        for c in q.calls(m_):
+            if isinstance(c.func, ast.Attribute) and c.func.attr in ("split", "splitlines") and (c.func.attr == "splitlines" or (c.args and isinstance(c.args[0], ast.Constant) and c.args[0].value == "\n")):
+                n16 += 1
+                stripped = [x for x in ast.walk(c.func.value) if isinstance(x, ast.Call) and isinstance(x.func, ast.Attribute) and x.func.attr in ("strip", "lstrip")]
+                if stripped:
+                    r.fail(m_, c, "%s on a stripped source" % norm(c)[:50], "%s splits the source after `%s`: for a file that starts with blank lines every row moves up - number, text and marker of the "
+                           "snippet no longer match" % (m_.short, norm(stripped[0])[:40]))
+                else:
+                    r.ok("%s: %s" % (m_.short, norm(c)[:50]))
+    if n16 == 0:
+        r.vacuous_ok = True
 
     return ctx.results
 
